@@ -266,3 +266,118 @@ def resets_in(fn, fx, blocks=None, depth=0, _stack=()):
             elif cname in RESET_CALLS and ai == 0:
                 out.setdefault(fp, []).append("%s:%s" % (fn.npath, t.get("ln")))
     return out
+
+
+# ---------------------------------------------------------------------------------------------
+# DISCARD — error discipline
+
+
+def _places_in_operand(o):
+    if "cp" in o:
+        yield o["cp"]
+    elif "mv" in o:
+        yield o["mv"]
+
+
+def _places_in_rvalue(rv):
+    k = rv["k"]
+    if k in ("use", "un", "cast", "repeat"):
+        yield from _places_in_operand(rv["o"])
+    elif k in ("ref", "rawptr", "discr"):
+        yield rv["p"]
+    elif k == "bin":
+        yield from _places_in_operand(rv["a"])
+        yield from _places_in_operand(rv["b"])
+    elif k == "aggr":
+        for o in rv["ops"]:
+            yield from _places_in_operand(o)
+
+
+def local_uses(fn, l):
+    """Reads of local `l` (any projection) in live blocks, excluding drops: [(block, what)]."""
+    out = []
+    for b in sorted(fn.live_blocks):
+        blk = fn.blocks[b]
+        for s_ in blk["stmts"]:
+            if s_["k"] == "assign":
+                for p in _places_in_rvalue(s_["rv"]):
+                    if p["l"] == l:
+                        out.append((b, "stmt"))
+                # a projection write *through* l (e.g. (*l).x = ..) reads l
+                if s_["p"]["l"] == l and s_["p"]["pr"]:
+                    out.append((b, "projwrite"))
+                for e in s_["p"]["pr"]:
+                    if isinstance(e, dict) and e.get("ix") == l:
+                        out.append((b, "index"))
+        t = blk["term"]
+        k = t["k"]
+        if k == "call":
+            for a in t["args"]:
+                for p in _places_in_operand(a):
+                    if p["l"] == l:
+                        out.append((b, "callarg"))
+            if "ptr" in t["f"]:
+                for p in _places_in_operand(t["f"]["ptr"]):
+                    if p["l"] == l:
+                        out.append((b, "callee"))
+        elif k == "switch":
+            for p in _places_in_operand(t["o"]):
+                if p["l"] == l:
+                    out.append((b, "switch"))
+        elif k == "assert":
+            for p in _places_in_operand(t["cond"]):
+                if p["l"] == l:
+                    out.append((b, "assert"))
+    return out
+
+
+ERR_TYPES = ("de_error::Error", "ser_error::Error", "ser::Error", "std::fmt::Error", "std::io::Error",
+             "budget::BudgetBreach", "saphyr_parser_bw::ScanError")
+
+
+def result_err_type(ty):
+    """`E` of `std::result::Result<T, E>` (top-level split), else None."""
+    pre = "std::result::Result<"
+    if not ty.startswith(pre) or not ty.endswith(">"):
+        return None
+    inner = ty[len(pre):-1]
+    depth = 0
+    last = -1
+    for i, ch in enumerate(inner):
+        if ch in "<([":
+            depth += 1
+        elif ch in ">)]" and not (ch == ">" and i > 0 and inner[i - 1] == "-"):
+            depth -= 1
+        elif ch == "," and depth == 0:
+            last = i
+    if last < 0:
+        return None
+    return inner[last + 1:].strip()
+
+
+def discards(fn, fx):
+    """Calls whose fallible result is never read: [(block, term, err_type, via)]."""
+    out = []
+    for b, t in fn.calls():
+        d = t["dest"]
+        if d["pr"] or t.get("t") is None:
+            continue
+        ty = fn.local_ty(d["l"])
+        e = result_err_type(ty)
+        if e is None or not any(x in e for x in ERR_TYPES):
+            continue
+        if d["l"] == 0:
+            continue
+        uses = local_uses(fn, d["l"])
+        if not uses:
+            out.append((b, t, e, "unused"))
+            continue
+        # `.ok()` / `.err()` whose own result is unused
+        if len(uses) == 1 and uses[0][1] == "callarg":
+            ub = uses[0][0]
+            ut = fn.blocks[ub]["term"]
+            c = fx.callee(ut)
+            if c in ("std::result::Result::ok", "std::result::Result::err", "std::result::Result::is_ok", "std::result::Result::is_err") and not ut["dest"]["pr"]:
+                if not local_uses(fn, ut["dest"]["l"]) and ut["dest"]["l"] != 0:
+                    out.append((b, t, e, c.rsplit("::", 1)[-1]))
+    return out
